@@ -15,6 +15,7 @@ mod frame;
 mod gen;
 mod io;
 mod keys;
+mod plan;
 mod props;
 mod sigrec;
 mod wire;
@@ -53,7 +54,9 @@ fn main() {
         }
     }
     // quiet panics: they are caught and classified per case
-    std::panic::set_hook(Box::new(|_| {}));
+    if std::env::var("VERIF_PANIC_VERBOSE").is_err() {
+        std::panic::set_hook(Box::new(|_| {}));
+    }
     let mut ctx = Ctx::new(&prop, tier, seed, &out);
     let known = props::run(&prop, &mut ctx);
     if !known {
